@@ -156,7 +156,9 @@ class GenerateWasmVisitor(Visitor.DefaultVisitor):
         index = vai.Variable
         if vai.Store:
             # Store to a parameter
-            self.__CheckSameValueType(vai.Type, vai.Store.Type, "assignment")
+            self.__CheckSameValueType(
+                vai.Type, vai.Store.Type, "assignment", vai.Store
+            )
             self.__PushValueOntoStack(vai.Store, ctx)
             ctx.Code.AddInstruction(
                 WebAssembly.Instruction(
@@ -282,13 +284,29 @@ class GenerateWasmVisitor(Visitor.DefaultVisitor):
         )
 
     def __CheckSameValueType(
-        self, expected: LinearIR.Type, actual: LinearIR.Type, what: str
+        self,
+        expected: LinearIR.Type,
+        actual: LinearIR.Type,
+        what: str,
+        value=None,
     ):
         # The front end does not convert a value that is returned or stored to
         # a parameter. The VM does not care, but a wasm value has a fixed type.
         expectedType = None if expected.IsVoid() else _ConvertValueType(expected)
         actualType = None if actual.IsVoid() else _ConvertValueType(actual)
-        if expectedType != actualType:
+
+        # int and uint share a value type, but the same bits are two
+        # different numbers from 2^31 on. A constant below that is fine.
+        def IsUnsigned(t):
+            return isinstance(t, LinearIR.IntegerType) and t.Unsigned
+
+        sameSign = IsUnsigned(expected) == IsUnsigned(actual) or (
+            isinstance(value, LinearIR.ConstantValue)
+            and isinstance(actual, LinearIR.IntegerType)
+            and 0 <= value.Value <= 0x7FFFFFFF
+        )
+
+        if expectedType != actualType or not sameSign:
             raise RuntimeError(
                 f"Unsupported implicit conversion for WebAssembly in {what}: "
                 f"{actual} to {expected}"
@@ -299,6 +317,7 @@ class GenerateWasmVisitor(Visitor.DefaultVisitor):
             self.__returnType,
             ri.Value.Type if ri.Value else LinearIR.VoidType(),
             "return",
+            ri.Value,
         )
 
         if ri.Value:
